@@ -132,7 +132,9 @@ def mon_tree(ctx):
 
 # ------------------------------------------------------------------------------- C04
 
-def names_ids(U):
+def names_ids(U, str_names=True):
+    """str_names=False: a reader may hand back a name YAML re-typed (name: 1); only empty
+    names are judged then."""
     for i, obj in enumerate(U.objs):
         knd = kind_of(obj)
         if knd == "other":
@@ -145,7 +147,7 @@ def names_ids(U):
         if not ok:
             return ("ids.canonical", "obj#%d has id %r" % (i, oid))
         if knd in ("sec", "prop"):
-            if not isinstance(obj.name, str) or obj.name == "":
+            if (str_names and not isinstance(obj.name, str)) or obj.name == "" or obj.name is None:
                 return ("names.nonempty", "obj#%d has name %r" % (i, obj.name))
         if knd in ("doc", "sec"):
             seen = {}
